@@ -210,6 +210,10 @@ pub fn run(engine: &str, prop: &str, path: &str, v: &Value) -> i32 {
                 let r = run_proc(&inv);
                 println!("  exit {:?} stdout {:?}", r.code, r.stdout);
                 let kind = exp["kind"].as_str().unwrap_or("malformed");
+                if kind == "big" {
+                    // judged against the graph of its family: the big-instance family is re-run as a whole
+                    return crate::checks::c05::big_instances_messages(true).into_iter().next();
+                }
                 if kind == "malformed" || (kind == "valid_or_error" && r.code != Some(0)) || prop == "C17" {
                     if r.code == Some(0) {
                         return Some("exit status 0".into());
